@@ -1089,14 +1089,76 @@ Proof. unfold state_val, state_term, dd_term. apply eval_term_same.
 Definition oval (tgs : list index) (r : env) (o : option state) : K S :=
   match o with Some s => state_val S T tgs r s | None => 0 end.
 
+(* ---------- tensors that the constructors evaluate to 0 have value 0 ---------- *)
+Lemma two_half : ofQ S (1 # 2) * (1 + 1) = 1.
+Proof. transitivity (ofQ S ((1 # 2) * (1 + 1))%Q).
+  - rewrite ofQ_mul, ofQ_add, ofQ_1. reflexivity.
+  - rewrite <- (ofQ_1 S). apply ofQ_eq. reflexivity. Qed.
+Lemma half_zero x : x = kopp S x -> x = 0.
+Proof. intros H. assert (H2 : x + x = 0) by (rewrite H at 1; ring).
+  transitivity (ofQ S (1 # 2) * (1 + 1) * x); [rewrite two_half; ring|].
+  transitivity (ofQ S (1 # 2) * (x + x)); [ring|rewrite H2; ring]. Qed.
+
+Lemma adj_sym_dup (g : list index -> K S) : adj_sym S true g ->
+  forall mid pre a post, g (pre ++ a :: mid ++ a :: post) = 0.
+Proof. intros Hg. induction mid as [|b mid IH]; intros pre a post; simpl.
+  - apply half_zero. pose proof (Hg pre a a post) as H. simpl in H.
+    transitivity (kopp S 1 * g (pre ++ a :: a :: post)); [exact H|ring].
+  - rewrite (Hg pre a b (mid ++ a :: post)).
+    replace (pre ++ b :: a :: mid ++ a :: post) with ((pre ++ [b]) ++ a :: mid ++ a :: post)
+      by (rewrite <- app_assoc; reflexivity).
+    rewrite IH. ring. Qed.
+
+Lemma has_dup_split l : has_dup l = true -> exists pre a mid post, l = pre ++ a :: mid ++ a :: post.
+Proof. induction l as [|a l IH]; simpl; [discriminate|]. rewrite orb_true_iff. intros [H|H].
+  - apply imem_In in H. apply in_split in H. destruct H as [l1 [l2 ->]]. exists [], a, l1, l2. reflexivity.
+  - destruct (IH H) as [pre [b [mid [post ->]]]]. exists (a :: pre), b, mid, post. reflexivity. Qed.
+
+Lemma tens_pauli_zero_val r t : tens_pauli_zero t = true -> tens_val S T r t = 0.
+Proof. unfold tens_pauli_zero. destruct t as [k n bks u l]; simpl.
+  destruct (inner_sym k) as [[|]|] eqn:Ek; try discriminate.
+  rewrite orb_true_iff. unfold tens_val; simpl.
+  intros [H|H]; apply has_dup_split in H; destruct H as [pre [a [mid [post ->]]]].
+  - apply (adj_sym_dup (fun x => tv T k n bks (map r x) (map r l))).
+    intros l1 x y l2. rewrite !map_app; simpl. apply (resp_upper S T R k n bks true Ek).
+  - apply (adj_sym_dup (fun x => tv T k n bks (map r u) (map r x))).
+    intros l1 x y l2. rewrite !map_app; simpl. apply (resp_lower S T R k n bks true Ek). Qed.
+
+Lemma tens_diag_zero_val r t : tens_diag_zero t = true -> tens_val S T r t = 0.
+Proof. unfold tens_diag_zero. intros H. rewrite (canon_tens_sound S T R r t).
+  unfold canon_tens. destruct t as [k n bks u l]; simpl in *.
+  destruct (inner_sym k) as [[|]|] eqn:Ek; try discriminate.
+  destruct (sort_par u) as [pu u'], (sort_par l) as [pl l']. simpl in H.
+  apply andb_true_iff in H. destruct H as [Hb He]. apply Z.eqb_eq in Hb. apply idxl_eqb_eq in He. subst.
+  assert (Hz : tv T k n (-1)%Z (map r l') (map r l') = 0).
+  { apply half_zero. apply (resp_bk_anti S T R k n); [congruence|reflexivity]. }
+  destruct ((((-1 =? 1)%Z || (-1 =? -1)%Z) && Nat.eqb (length l') (length l') &&
+            lex_ltb (keys_of l') (keys_of l'))%bool); simpl; unfold tens_val; simpl; rewrite Hz; ring. Qed.
+
+Lemma tens_zero_val r t : tens_zero t = true -> tens_val S T r t = 0.
+Proof. unfold tens_zero. rewrite orb_true_iff. intros [H|H]; [apply tens_pauli_zero_val|apply tens_diag_zero_val]; exact H. Qed.
+
+Lemma fac_zero_kills r fs : existsb fac_zero fs = true -> mono_val S T r fs = 0.
+Proof. induction fs as [|f fs IH]; simpl; [discriminate|]. rewrite (mono_val_cons S T), orb_true_iff.
+  intros [H|H].
+  - destruct f as [[t| | | |] [|]]; simpl in H; try discriminate.
+    unfold fac_val; simpl. rewrite (tens_zero_val r t H). ring.
+  - rewrite (IH H). ring. Qed.
+
+Lemma zero_state_val tgs r x : existsb fac_zero (objs_facs (sobjs x)) = true -> state_val S T tgs r x = 0.
+Proof. intros H. unfold state_val, eval_term.
+  rewrite (sum_over_ext S T _ _ (fun _ => 0)); [apply sum_over_zero|].
+  intros r'. unfold term_val, state_term; simpl. rewrite (fac_zero_kills r' _ H). ring. Qed.
+
 Lemma same_val_sound tgs r a b : same_val tgs a b = true -> oval tgs r a = oval tgs r b.
-Proof. destruct a as [x|], b as [y|]; cbn [same_val oval]; try discriminate; [|reflexivity].
-  pose proof (term_key_val S T R tgs r (dd_term x)) as Hx.
-  pose proof (term_key_val S T R tgs r (dd_term y)) as Hy.
-  destruct (term_key tgs (dd_term x)) as [kx qx], (term_key tgs (dd_term y)) as [ky qy].
-  cbn [fst snd] in Hx, Hy. rewrite andb_true_iff. intros [Hk Hq].
-  apply key_eqb_eq in Hk. apply Qeq_bool_eq in Hq. subst ky.
-  rewrite !dd_val, Hx, Hy, (ofQ_eq S _ _ Hq). reflexivity. Qed.
+Proof. destruct a as [x|], b as [y|]; cbn [same_val oval]; try discriminate; [| |reflexivity].
+  - pose proof (term_key_val S T R tgs r (dd_term x)) as Hx.
+    pose proof (term_key_val S T R tgs r (dd_term y)) as Hy.
+    destruct (term_key tgs (dd_term x)) as [kx qx], (term_key tgs (dd_term y)) as [ky qy].
+    cbn [fst snd] in Hx, Hy. rewrite andb_true_iff. intros [Hk Hq].
+    apply key_eqb_eq in Hk. apply Qeq_bool_eq in Hq. subst ky.
+    rewrite !dd_val, Hx, Hy, (ofQ_eq S _ _ Hq). reflexivity.
+  - apply zero_state_val. Qed.
 
 (* every accepted trace has the value of its first product, in every tensor
    model that respects the declared tensor symmetries *)
